@@ -4,6 +4,7 @@
 package main
 
 import (
+	"bytes"
 	"encoding/json"
 	"fmt"
 	"strings"
@@ -414,6 +415,45 @@ func run(r *harness.Run) {
 		}
 	})
 	r.Count("B_key_subsets", int64(len(subsets)))
+
+	// (B2) ordering of key pairs that share a prefix: for three prefixes, every pair (p+c, p+d) and (p, p+c) with c, d ranging over
+	// EVERY printable ASCII character, the control characters and the UTF-8 / UTF-16 length boundaries, in both input orders.
+	// (A comparison done on anything but the decoded keys - raw tokens, quoted tokens, UTF-16 units - differs from the code-point
+	// order only for particular continuation characters: below '"', between '"' and '\\', above U+FFFF ...)
+	{
+		var tails []string
+		tails = append(tails, "")
+		for c := rune(0); c < 0x80; c++ {
+			tails = append(tails, string(c))
+		}
+		for _, c := range []rune{0x80, 0xFF, 0x7FF, 0x800, 0xD7FF, 0xE000, 0xFFFD, 0xFFFF, 0x10000, 0x10FFFF} {
+			tails = append(tails, string(c))
+		}
+		quote := func(k string) string {
+			var sb bytes.Buffer
+			enc := json.NewEncoder(&sb)
+			enc.SetEscapeHTML(false)
+			_ = enc.Encode(k)
+			return strings.TrimSuffix(sb.String(), "\n")
+		}
+		prefixes := []string{"", "a", "\u00e9"}
+		var n int64
+		for _, p := range prefixes {
+			p := p
+			r.Parallel(len(tails), func(i int) {
+				for j := i + 1; j < len(tails); j++ {
+					k1, k2 := p+tails[i], p+tails[j]
+					val := &refjson.Value{Kind: refjson.Object, Members: []refjson.Member{
+						{Key: k1, Val: &refjson.Value{Kind: refjson.Number, Num: "0"}},
+						{Key: k2, Val: &refjson.Value{Kind: refjson.Number, Num: "1"}}}}
+					doText([]byte("{"+quote(k1)+":0,"+quote(k2)+":1}"), val)
+					doText([]byte("{"+quote(k2)+":1,"+quote(k1)+":0}"), val)
+				}
+			})
+			n += int64(len(tails) * (len(tails) - 1))
+		}
+		r.Count("B2_prefix_key_pairs", n)
+	}
 
 	// (C) trees with <= N nodes x whitespace deviations
 	N := r.Pick(4, 5)
